@@ -382,3 +382,25 @@ PROPS["C06"] = {
         "mutating a WAF after construction and setenv are out of scope (documented as unsupported / process-wide)",
     ],
 }
+
+PROPS["C20"] = {
+    "level": "fault_enumeration",
+    "runs": [run("TestC20Early", (2500, 3), (60000, 8)), run("TestC20Faults", (3, 3), (12, 8), shrinktime="1s")],
+    "cap_s": {"quick": 900, "thorough": 7200},
+    "rule": "scenarios = body none / in memory / spilled to disk / multipart with 0..3 uploads x SecUploadKeepFiles Off|On|RelevantOnly x audit "
+            "Off|Serial|Concurrent x deny in phase 0-4 x logging rule x response body; (a) early termination: the API script is stopped "
+            "after every prefix, then Close (in process); (b) fault enumeration: the scenario runs in a child process under strace; a "
+            "recording run lists every openat / write / pwrite64 / read / pread64 / close / unlinkat / mkdirat on a body spill file, an "
+            "upload file or the audit directory, then the scenario is re-run once per listed call with exactly that call failing (EACCES / "
+            "ENOSPC / EIO); an injection counts only if strace reports exactly one injected call, before the transaction is closed, on the "
+            "same (normalised) path as recorded; oracle = no panic, the failure is visible (returned error, error variable, error-level "
+            "debug log entry or interruption), no temporary file left after Close except what upload retention keeps (and the target of a "
+            "failing unlink), file descriptors back to the baseline, a following transaction on the same WAF behaves normally; "
+            "non-trivial = at least one aligned injection (faults) / a scenario with files stopped at or after the third call (early)",
+    "essential": {"all": ["body:spill", "body:multipart", "uploads", "keep:On", "keep:RelevantOnly", "interrupted"]},
+    "assumptions": COMMON_ASSUME + [
+        "strace -e inject counts 'when=N' per traced thread; misaligned runs are detected after the fact and discarded (counted in coverage.extra)",
+        "faults on the writability probe files (checkfsfile*) NewWAF creates are out of scope; a failed read at end of file is not a fault (no data)",
+        "fsync and faults in directories coraza does not own are excluded",
+    ],
+}
